@@ -25,6 +25,8 @@ import (
 	"sort"
 	"strconv"
 	"strings"
+	"sync"
+	"sync/atomic"
 	"time"
 
 	ipfscluster "github.com/ipfs/ipfs-cluster"
@@ -226,7 +228,7 @@ func startManager(base string, id peer.ID) cmdutils.StateManager {
 
 // exportOfCids: the real export stream of the pinset
 func exportOfCids(cids []int, id peer.ID) []byte {
-	dir := scratch("start-exp")
+	dir := scratchU("start-exp")
 	defer os.RemoveAll(dir)
 	st, _ := dsstate.New(inmem.New(), "/imp", nil)
 	for _, n := range cids {
@@ -242,13 +244,52 @@ func exportOfCids(cids []int, id peer.ID) []byte {
 	return b.Bytes()
 }
 
+// The start cases spend their time waiting (elections, shutdowns): they run `startWorkers` at a time, each in its own
+// scratch directories; the lines are printed in case order.
+const startWorkers = 4
+
+var startMu sync.Mutex
+var startSeq uint64
+
+func scratchU(name string) string {
+	return scratch(fmt.Sprintf("%s-%d", name, atomic.AddUint64(&startSeq, 1)))
+}
+
+func runStartBatch(cs []startCase, out *common.Out) {
+	if len(cs) == 0 {
+		return
+	}
+	res := make([]string, len(cs))
+	var wg sync.WaitGroup
+	next := int64(-1)
+	for w := 0; w < startWorkers; w++ {
+		wg.Add(1)
+		go func() {
+			defer wg.Done()
+			for {
+				i := int(atomic.AddInt64(&next, 1))
+				if i >= len(cs) {
+					return
+				}
+				res[i] = runStart(cs[i])
+			}
+		}()
+	}
+	wg.Wait()
+	for i, c := range cs {
+		out.Line("%s => %s", c.input(), res[i])
+	}
+}
+
 func runStart(c startCase) string {
 	for attempt := 0; attempt < 3; attempt++ {
 		if r, ok := runStartOnce(c); ok {
 			return r
 		}
 	}
+	startMu.Lock()
 	comments = append(comments, "# inconclusive start: no leader in time")
+	startMu.Unlock()
 	return "built=? pre=-:0 preoff=? off=? post=-:0 old0=? start=?"
 }
 
@@ -259,8 +300,8 @@ func runStartOnce(c startCase) (string, bool) {
 		return "", false
 	}
 	id, _ := peer.IDFromPublicKey(pub)
-	live := scratch("start-live")
-	base := scratch("start-base")
+	live := scratchU("start-live")
+	base := scratchU("start-base")
 	defer os.RemoveAll(live)
 	defer os.RemoveAll(base)
 	liveFolder := filepath.Join(live, "raft")
